@@ -57,7 +57,8 @@ EXHAUSTIVE_NOTE = ("every full rectangular layout 1-4 x 4-40 (natural trace orde
                    "1 (plane wave + noise) in the quick tier, and at rank full (random spectra) and every rank 1..full "
                    "(k = rank plane waves + noise) in the thorough tier; rolling_window: every window kind x odd length 3..51 x "
                    "3 signal lengths; lp: every length 1..200 x 4 paddings; svd_denoise_npx: every (nc, rank) with 1 <= rank <= nc <= 160 on data of exactly that rank. Data, trace order and all other "
-                   "sub-properties are sampled.")
+                   "sub-properties are sampled. Memory layout, argument type and call form cycle deterministically through the "
+                   "enumerated cases (one per case, not their product).")
 ASSUMPTIONS = [
     "spike sample arrays are sorted in time (spike trains); unsorted arrays and sorters without any spike are not generated",
     "cadzow plane-wave identities are asserted on full rectangular grids only; staggered (NP1-like) grids are "
@@ -326,7 +327,10 @@ def enum_shards(tier):
 
 def _enum_cadzow_case(nx, ny, mode, k, seed):
     c = {"fn": "cadzow", "nx": nx, "ny": ny, "layout": "full", "perm": None, "dx": 16.0, "dy": 20.0, "x0": 11.0,
-         "y0": 20.0, "mode": mode, "nf": 3, "niter": 1, "imax": None, "scale": 1.0, "seed": seed}
+         "y0": 20.0, "mode": mode, "nf": 3, "niter": 1, "imax": None, "scale": 1.0, "seed": seed,
+         # layout / type / call form cycle through the enumeration (they cost nothing); no repeated calls here
+         "wlayout": LAY2[(nx + ny) % len(LAY2)], "cdtype": "c8" if (nx * ny) % 5 == 0 else "c16",
+         "xy": XY_KINDS[(3 * nx + ny) % len(XY_KINDS)], "kwform": ["kw", "omit", "pos"][ny % 3], "rep": 0}
     if mode == "waves":
         c.update({"k": k, "r_off": 0, "wavemode": "random", "sig_exp": -5})
     return c
@@ -346,17 +350,20 @@ def enum_cases(desc):
         for nc in desc["ncs"]:
             for k in range(1, nc + 1):
                 yield {"fn": "svd", "nc": nc, "ns": nc + 5, "mode": "lowrank", "dtype": "f8", "scale": 1.0,
-                       "seed": 100003 * nc + k, "k": k, "r_off": 0, "sig_exp": -5, "noise": False}
+                       "seed": 100003 * nc + k, "k": k, "r_off": 0, "sig_exp": -5, "noise": False,
+                       "layout": LAY2[(nc + k) % len(LAY2)], "rank_form": ["kw", "pos", "np"][k % 3]}
     elif desc["what"] == "rolling":
         for win in WINDOWS:
             for wl in range(3, 52, 2):
                 for extra in (0, 1, 7):
-                    yield {"fn": "rolling", "wl": wl, "n": wl + extra, "window": win, "c": -2.5, "as_list": False,
-                           "seed": wl}
+                    yield {"fn": "rolling", "wl": wl, "n": wl + extra, "window": win, "c": -2.5, "as_list": extra == 7,
+                           "seed": wl, "layout": LAY1[(wl // 2 + extra) % len(LAY1)], "form": "pos" if extra == 1 else "kw"}
     elif desc["what"] == "lp":
         for n in range(1, 201):
             for pad in (0.01, 0.2, 0.5, 1.0):
-                yield {"fn": "lp", "n": n, "pad": pad, "f0": 0.1, "f1": 0.15, "c": 3.25, "seed": n}
+                yield {"fn": "lp", "n": n, "pad": pad, "f0": 0.1, "f1": 0.15, "c": 3.25, "seed": n,
+                       "layout": LAY1[n % len(LAY1)], "pad_form": "default" if pad == 0.2 else ("pos" if n % 2 else "kw"),
+                       "fac_form": ["list", "tuple", "array"][n % 3]}
 
 
 # ------------------------------------------------------------------------------------------------
